@@ -76,6 +76,9 @@ func main() {
 		if r.VariantHas("sweep") {
 			xsync.VerifSetHook(nil)
 			r.Cases("trig-sweep", r.Scale(24, 100), 1, func(c *vkit.Case) { trigSweep(c) })
+			r.Cases("trig-end-sweep", r.Scale(8, 64), 1, func(c *vkit.Case) { trigEndSweep(c) })
+			r.Cases("trig-chain", r.Scale(4, 16), 1, func(c *vkit.Case) { trigChain(c) })
+			r.Floor("trigger calls aimed at the end of a run by a caller that then blocks", r.Table("trig-sweep", "end-of-run rounds"), 50000)
 			if r.Thorough() {
 				r.Cases("trig-wrap32", 2, 1, func(c *vkit.Case) { trigWrap32(c) })
 				r.Cases("slow-scale", 1, 1, func(c *vkit.Case) { slowScale(c) })
